@@ -196,6 +196,8 @@ def run_shard(sh, n):
                         deco[rn] = rnd.choice([('nomemo',), ('nostak',), ('nomemo', 'nostak')])
             gtext = decorated_text(rules, deco) + RETRY % dict(s=start0)
             start = 'VF_RETRY'
+            if rnd.random() < (0.6 if 'nostak' in deco.get(start0, ()) else 0.15):
+                start = start0      # the grammar's own first rule is the start rule (it may be @nostak: nothing is on the rule stack then)
             rmap = dict(rules)
             inputs = []
             for _ in range(4):
